@@ -629,6 +629,27 @@ impl VM {
                     obj
                 }
             }
+            PacketPropType::Ipv6 => {
+                if let Some(val) = setval {
+                    vlan.inner.replace(Some(val.clone()));
+                    val
+                } else {
+                    if let Some(inner) = vlan.inner.borrow().as_ref() {
+                        return Ok(inner.clone());
+                    }
+                    let obj = match Ipv6Packet::from_bytes(
+                        Rc::clone(&vlan.rawdata.borrow()),
+                        vlan.offset,
+                    ) {
+                        Ok(ipv6) => Rc::new(Object::Ipv6(Rc::new(ipv6))),
+                        // A layer that cannot be parsed (e.g. truncated) is not cached
+                        // so that the raw bytes are still written out unchanged
+                        Err(e) => return Ok(Rc::new(Object::Err(ErrorObj::Packet(e)))),
+                    };
+                    vlan.inner.replace(Some(obj.clone()));
+                    obj
+                }
+            }
             PacketPropType::Payload => {
                 let payload = vlan.rawdata.borrow().clone();
                 let mut elements = Vec::new();
